@@ -248,6 +248,7 @@ package vm
 //@   ensures @C07 runfn.frame.rows: forall a ref :: existed(a) ==> objRowUnchanged(a)
 //@   ensures @C07 @C08 runfn.restore: vm.bytecode === old(vm.bytecode) && vm.stack == old(vm.stack) && vm.depth == old(vm.depth)
 //@   ensures @C06 @C07 runfn.scopes.len: err == nil ==> len(vm.environment.local) == old(len(vm.environment.local))
+//@   ensures @C06 runfn.scopes.count: count(scopes) >= old(count(scopes))
 //@   onpanic @C07 @C08 runfn.panic.restore: vm.bytecode === old(vm.bytecode) && vm.stack == old(vm.stack) && vm.depth == old(vm.depth)
 //@   recursion guarded depth maxCallDepth
 //@   panics maybe
@@ -261,6 +262,7 @@ package vm
 //@   ensures @C07 run.frame.rows: forall a ref :: existed(a) && a != old(arr(vm.stack.entries)) ==> objRowUnchanged(a)
 //@   ensures @C07 run.bytecode: vm.bytecode === old(vm.bytecode) && vm.stack == old(vm.stack) && vm.depth == old(vm.depth)
 //@   ensures @C06 @C07 run.scopes.len: err == nil ==> len(vm.environment.local) == old(len(vm.environment.local))
+//@   ensures @C06 run.scopes.count: count(scopes) >= old(count(scopes))
 //@   onpanic @C07 @C08 run.panic.restore: vm.bytecode === old(vm.bytecode) && vm.stack == old(vm.stack) && vm.depth == old(vm.depth)
 //@   panics maybe
 //@ loop 1 invariant run.inv.ip: 0 <= ip
@@ -270,6 +272,7 @@ package vm
 //@ loop 1 invariant run.inv.fields: vm.fields != nil
 //@ loop 1 invariant run.inv.same: vm.depth == entry(vm.depth) && vm.stack == entry(vm.stack) && vm.environment == entry(vm.environment) && vm.constants === entry(vm.constants) && vm.bytecode === entry(vm.bytecode) && vm.functions == entry(vm.functions) && vm.context == entry(vm.context)
 //@ loop 1 invariant run.inv.scopes: scopesOK(vm.environment)
+//@ loop 1 invariant run.inv.scopes.count: count(scopes) >= entry(count(scopes))
 // OpArray: elements[opArg..n) hold the values popped so far, in push order
 //@ loop 2 invariant arr.inv: 0 <= opArg && opArg <= len(elements) && vmOK(vm) && fresh(elements) && forall j in opArg..len(elements) :: validObj(elements[j])
 //@ loop 2 invariant arr.inv.stack: fresh(vm.stack.entries) && vm.stack == entry(vm.stack) && arr(elements) != arr(vm.stack.entries)
@@ -366,6 +369,10 @@ package vm
 //@ loop 1 step @C06 @C07 step.call.user: op == code.OpCall && old(depth(vm)) >= old(operand(vm, ip)) + 1 && isStr(T1(vm)) && !old(has(vm.environment.functions, sval(T1(vm))))
 //@            ==> ip == old(ip) + 3 && keptBelow(vm, old(operand(vm, ip)) + 1) && (depth(vm) == old(depth(vm)) - old(operand(vm, ip)) - 1 || (depth(vm) == old(depth(vm)) - old(operand(vm, ip)) && !isVoid(top(vm))))
 //@            && old(has(vm.functions, sval(T1(vm)))) && len(old(vm.functions[sval(T1(vm))]).Arguments) == old(operand(vm, ip))
+// a call of a user-defined function that completes ran its body in a scope of its own: one scope was pushed
+// for it and one popped after it (ghost: count(scopes) counts the stores to the scope stack)
+//@ loop 1 step @C06 step.call.scope: op == code.OpCall && old(depth(vm)) >= old(operand(vm, ip)) + 1 && isStr(T1(vm)) && !old(has(vm.environment.functions, sval(T1(vm))))
+//@            ==> count(scopes) >= old(count(scopes)) + 2
 // operators: the arm delegates to the operator functions
 //@ loop 1 step @C01 step.binop.ip: isBinop(op) ==> ip == old(ip) + 1
 //@ loop 1 inherit vm.(*VM).executeBinaryOperation when isBinop(op)
